@@ -21,6 +21,12 @@ OPS += [
  # a pipeable operator as a MEMBER of concat! (Ops/PlugOp.lean, Inv/PlugOpSafe.lean): concat!(a, skip(1)(b)), concat!(take(2)(a), b), …
  ("member_of_concat", "{S1 L1 β : Type} {M1 : Machine S1 L1 β β} (h1 : Pipeable M1) (n : Nat) (hn : 0 < n) (j : Nat)",
   "plugOp j M1 (Concat.machine β n)", "PlugOpSafe.plugOp_concat_basicSafe h1 n hn j s hs", "PlugOpSafe"),
+ # … and of merge! (late greeters): merge!(take(2)(a), b), merge!(a, filter(p)(b)) — Inv/LateMember.lean (relays and take proved safe under
+ # a late-greeting upstream; `open2` is FALSE for merge (kernel-checked: `merge_not_open2`), replaced by "M₁ subscribes only inside its own subscription")
+ ("take_member_of_merge", "{α : Type} (max n j : Nat)",
+  "plugOp j (Take.machine α max) (Merge.machine α n true)", "LateMember.plugOp_take_merge_basicSafe max n j s hs", "LateMember"),
+ ("relay_member_of_merge", "{σ α : Type} (k : Relay.Kind σ α α) (hk : k.slotted = false → ∀ s a, (k.xfer s a).2 ≠ none) (n j : Nat)",
+  "plugOp j (Relay.machine k) (Merge.machine α n true)", "LateMember.plugOp_relay_merge_basicSafe k hk n j s hs", "LateMember"),
 ]
 READABLE = {
  "01": ("GreetFirstOnce", "greetFirstOnce_of_clean hs (fun v hv => h.1 v (by unfold G.viols; exact List.mem_append_right _ hv)) k",
